@@ -198,7 +198,7 @@ def klass(draw, cx, name, earlier):
 
 @st.composite
 def library(draw, lang="c", min_types=1, max_types=8, min_funcs=1, max_funcs=6, max_vars=3, max_tus=3,
-            symfeatures=False, statics=True, kind_w=None, tu_private=0, versions="maybe", tdanon=0):
+            symfeatures=False, statics=True, kind_w=None, tu_private=0, versions="maybe", tdanon=0, named_inline=0):
     if lang == "any":
         lang = _pick(draw, ["c", "c", "cxx"])
     cxx = lang == "cxx"
@@ -273,6 +273,10 @@ def library(draw, lang="c", min_types=1, max_types=8, min_funcs=1, max_funcs=6, 
             else:
                 m["statics"].append({"name": "svar%d" % i, "type": texpr(draw, cx, 0, allow_array=True),
                                      "tu": draw(st.integers(0, ntu - 1)), "static": True})
+    for s_ in m["statics"]:
+        sanitize_static(m, s_)
+    if named_inline and not cxx and draw(st.integers(0, 99)) < named_inline:
+        add_named_inline_members(draw, m)
     if tdanon and draw(st.integers(0, 99)) < tdanon:
         add_typedefed_anonymous(draw, m, ntu)
     if tu_private and lang == "c" and ntu >= 2 and draw(st.integers(0, 99)) < tu_private:
@@ -280,6 +284,56 @@ def library(draw, lang="c", min_types=1, max_types=8, min_funcs=1, max_funcs=6, 
     if symfeatures:
         add_symbol_features(draw, m, versions)
     return m
+
+
+def no_class_by_value(m, t):
+    """C++: a static (unexported) function or variable must not hold, take or return a class *by value* -- that instantiates
+    implicit constructors / copy constructors, which are weak *exported* symbols, so adding or removing such a static would not
+    be ABI-neutral.  By-value class types (also as array elements) are replaced by pointers to them."""
+    idx = M.type_index(m)
+    core = M.strip_cv(t)
+    if core[0] == "a":
+        return ["p", no_class_by_value(m, core[1])] if no_class_by_value(m, core[1]) != core[1] else t
+    if core[0] == "n":
+        k = idx.get(core[1], {}).get("kind")
+        if k in ("struct", "class", "union"):
+            return ["p", core]
+        if k == "typedef":
+            return ["p", core] if no_class_by_value(m, idx[core[1]]["type"]) != idx[core[1]]["type"] else t
+    return t
+
+
+def sanitize_static(m, s_):
+    if m["lang"] != "cxx":
+        return s_
+    if "params" in s_:
+        s_["ret"] = no_class_by_value(m, s_["ret"])
+        for p_ in s_["params"]:
+            p_["type"] = no_class_by_value(m, p_["type"])
+    else:
+        s_["type"] = no_class_by_value(m, s_["type"])
+    return s_
+
+
+def add_named_inline_members(draw, m):
+    """Named members whose type is an anonymous struct written in place, cv-qualified or not, in pairs of *different* structs
+    of the same size (`const struct { int w; int h; } dims;` / `const struct { float g; short l; short r; } mix;`), placed in
+    one or two structs that exported interfaces reach."""
+    reach = M.reachable_types(m)
+    aggs = [t for t in m["types"] if t["kind"] == "struct" and t["name"] in reach and not t.get("tpl") and not t.get("cname")]
+    if not aggs:
+        return
+    shapes = [[("w", "int"), ("h", "int")], [("g", "float"), ("l", "short"), ("r", "short")], [("d", "double")],
+              [("a", "unsigned int"), ("b", "float")], [("p", "long")], [("c0", "char"), ("c1", "char"), ("s", "short"), ("i", "int")]]
+    hosts = [_pick(draw, aggs) for _ in range(draw(st.integers(1, 2)))]
+    k = 0
+    for pair in range(draw(st.integers(1, 2))):
+        cv = _pick(draw, ["c", "c", "v", None])
+        for sh in [shapes[i] for i in sorted(set(draw(st.integers(0, 5)) for _ in range(3)))][:2]:
+            host = hosts[k % len(hosts)]
+            host["members"].append({"anon": "struct", "vname": "nm%d" % k, "vcv": cv,
+                                    "members": [{"name": "nm%d_%s" % (k, n), "type": ["b", ty], "bits": None} for n, ty in sh]})
+            k += 1
 
 
 def add_typedefed_anonymous(draw, m, ntu):
